@@ -141,6 +141,16 @@ def run(check, an: Analysis):
     check.floor('X', 3)
     _scope.check_failure_is_kept_as_raised(check, an, 'X')
     _scope.check_scope_told_before_done(check, an, 'X')
+    # ... and awaiting a task suspends also when the task is done already: the abort queued
+    # by a failure is delivered before the awaiter can look at the child's exception
+    from . import c20 as _c20
+    t_await = an.callee(_scope.TASK, '__await__')
+    t_summ = an.it.summary(t_await)
+    t_bad = _c20.failing_normal_path(t_summ.paths)
+    check.instance('X', 'Task.__await__:always-suspends', t_bad is None,
+                   where_fn(t_await.fn), 'every normal completion of `await task` passed a '
+                   'suspension that must suspend', path=t_bad.describe() if t_bad else None,
+                   analysed=len(t_summ.paths))
     exc_prop = an.method(_scope.TASK, '__exception__')
     returned = {rules.value_text(p, len(p.events) - 1, p.outcome[1])
                 for p in an.paths(Callee(exc_prop, _scope.TASK))
